@@ -119,6 +119,15 @@ def run_many(drv, scripts, wd, par=vlib.NCPU):
 
 
 # ------------------------------------------------------------------ script generators
+def areq(rnd, peer, text):
+    """an 'A' command; in about a third of the cases the request arrives in pieces ('AC'), like a request that needs several
+    recv() calls (anything above the connection buffer of 4 KiB always does)"""
+    if rnd.random() < 0.65:
+        return 'A\t%d\t%s' % (peer, rrgen.esc(text))
+    sizes = rnd.choice([[1], [2], [7], [16, 3], [64], [100], [4096], [rnd.randint(1, 300) for _ in range(rnd.randint(1, 6))], [max(1, len(text) // 2)], [max(1, len(text) - 1)]])
+    return 'AC\t%d\t%s\t%s' % (peer, ','.join(map(str, sizes)), rrgen.esc(text))
+
+
 def random_script(rnd, ntasks=3, peers=(1000,), horizon=14, maxsims=(0, 0, 1, 2), steps=40, cancel=True, big=False):
     uids = ['t%d' % (i + 1) for i in range(ntasks)]
     cmds, metas = [], {}
@@ -129,7 +138,7 @@ def random_script(rnd, ntasks=3, peers=(1000,), horizon=14, maxsims=(0, 0, 1, 2)
         if rnd.random() < 0.7: occ = sorted(set(occ))
         it = {'kind': 'add', 'uid': uid, 'occ': occ, 'maxsim': rnd.choice(maxsims), 'peer': rnd.choice(peers)}
         metas[len(cmds)] = [it]
-        cmds.append('A\t%d\t%s' % (it['peer'], rrgen.esc(request([it]))))
+        cmds.append(areq(rnd, it['peer'], request([it])))
     for u in uids:
         if rnd.random() < 0.8: add(u)
     for _ in range(steps):
@@ -143,7 +152,7 @@ def random_script(rnd, ntasks=3, peers=(1000,), horizon=14, maxsims=(0, 0, 1, 2)
         elif cancel:
             it = {'kind': 'cancel', 'uid': rnd.choice(uids), 'peer': rnd.choice(peers)}
             metas[len(cmds)] = [it]
-            cmds.append('A\t%d\t%s' % (it['peer'], rrgen.esc(request([it], 'CANCEL'))))
+            cmds.append(areq(rnd, it['peer'], request([it], 'CANCEL')))
     # drain: let everything still due happen, all children exit
     for _ in range(3):
         cmds += ['T\t%d' % (horizon * 3 + 5), 'R', 'DA'] + ['XI\t0', 'DA'] * 8
@@ -183,11 +192,11 @@ def map_script(rnd, uidpool, peers=(1000, 1001, 1002, 0, 4242), nreq=8):
                 elif y < 0.3: it['owner_name'] = rnd.choice(['alice', 'bob', 'carol', 'nobody-such'])
                 items.append(it)
             metas[len(cmds)] = items
-            cmds.append('A\t%d\t%s' % (p, rrgen.esc(request(items))))
+            cmds.append(areq(rnd, p, request(items)))
         elif x < 0.75:
             items = [{'kind': 'cancel', 'uid': rnd.choice(uidpool), 'peer': p} for _ in range(rnd.choice([1, 1, 2]))]
             metas[len(cmds)] = items
-            cmds.append('A\t%d\t%s' % (p, rrgen.esc(request(items, 'CANCEL'))))
+            cmds.append(areq(rnd, p, request(items, 'CANCEL')))
         elif p == 0:
             continue    # the administrator's own listing is outside the property
         elif x < 0.85:
@@ -285,10 +294,10 @@ def chk_history(rnd, users=(1000, 1001), uids=('a', 'b', 'c', 'd'), nreq=5, fat=
                 it = {'kind': 'add', 'uid': rnd.choice(uids), 'occ': sorted(set(FAR + rnd.randint(0, 50) for _ in range(rnd.randint(1, 3)))), 'maxsim': 0, 'peer': p}
                 if fat: it['extra'] = ['DESCRIPTION:' + 'x' * rnd.choice([200, 900, 1000])] * 1 + ['ATTENDEE:mailto:%s@example.com' % ('y' * 60)] * rnd.randint(0, 5)
                 items.append(it)
-            metas[len(cmds)] = items; cmds.append('A\t%d\t%s' % (p, rrgen.esc(request(items))))
+            metas[len(cmds)] = items; cmds.append(areq(rnd, p, request(items)))
         else:
             items = [{'kind': 'cancel', 'uid': rnd.choice(uids), 'peer': p}]
-            metas[len(cmds)] = items; cmds.append('A\t%d\t%s' % (p, rrgen.esc(request(items, 'CANCEL'))))
+            metas[len(cmds)] = items; cmds.append(areq(rnd, p, request(items, 'CANCEL')))
     for _ in range(nreq): req()
     cmds.append('K')
     for _ in range(rnd.randint(0, 3)): req()
